@@ -125,7 +125,14 @@ func (m MapSchema[K, V]) Unserialize(data any) (any, error) {
 		if err != nil {
 			return nil, ConstraintErrorAddPathSegment(err, fmt.Sprintf("[%v]", k.Interface()))
 		}
-		result.SetMapIndex(reflect.ValueOf(unserializedKey), reflect.ValueOf(unserializedValue))
+		keyValue := reflect.ValueOf(unserializedKey)
+		if result.MapIndex(keyValue).IsValid() {
+			return nil, &ConstraintError{
+				Message: fmt.Sprintf("Duplicate key %v after unserialization", unserializedKey),
+				Path:    []string{fmt.Sprintf("{%v}", k.Interface())},
+			}
+		}
+		result.SetMapIndex(keyValue, reflect.ValueOf(unserializedValue))
 	}
 	return result.Interface(), nil
 }
